@@ -206,6 +206,10 @@ func (vr *VerifiableReader) cacheWithReader(ctx context.Context, currentDepth in
 			if !ok {
 				break
 			}
+			if err := checkChunk(nr, chunkOffset, chunkSize); err != nil {
+				rErr = fmt.Errorf("failed to cache %q: %w", name, err)
+				return false
+			}
 			nr += chunkSize
 
 			if err := sem.Acquire(ctx, 1); err != nil {
@@ -234,6 +238,12 @@ func (vr *VerifiableReader) readAndCache(id uint32, fr io.Reader, chunkOffset, c
 
 	if retErr != nil {
 		vr.storeLastVerifyErr(retErr)
+	}
+
+	if chunkSize != 0 {
+		if err := checkChunk(chunkOffset, chunkOffset, chunkSize); err != nil {
+			return err
+		}
 	}
 
 	// Check if it already exists in the cache
@@ -368,6 +378,12 @@ func (gr *reader) OpenFile(id uint32) (io.ReaderAt, error) {
 			return nil
 		}
 
+		if chunkSize != 0 {
+			if err := checkChunk(chunkOffset, chunkOffset, chunkSize); err != nil {
+				return err
+			}
+		}
+
 		// Read and cache
 		b := gr.bufPool.Get().(*bytes.Buffer)
 		b.Reset()
@@ -434,6 +450,13 @@ func (sf *file) ReadAt(p []byte, offset int64) (int, error) {
 		chunkOffset, chunkSize, chunkDigestStr, ok := sf.fr.ChunkEntryForOffset(offset + int64(nr))
 		if !ok {
 			break
+		}
+		if err := checkChunk(offset+int64(nr), chunkOffset, chunkSize); err != nil {
+			return 0, err
+		}
+		if nr > 0 && chunkOffset != offset+int64(nr) {
+			// the buffer arithmetic below relies on every chunk after the first starting where the previous one ended
+			return 0, fmt.Errorf("chunk (offset:%d,size:%d) does not start at file offset %d", chunkOffset, chunkSize, offset+int64(nr))
 		}
 		var (
 			id           = genID(sf.id, chunkOffset, chunkSize)
@@ -516,6 +539,9 @@ func (sf *file) GetPassthroughFd(mergeBufferSize int64, mergeWorkerCount int) (u
 		if !ok {
 			break
 		}
+		if err := checkChunk(offset, chunkOffset, chunkSize); err != nil {
+			return 0, nil, err
+		}
 		// Check if any chunk size exceeds merge buffer size to avoid bounds out of range
 		if chunkSize > mergeBufferSize {
 			hasLargeChunk = true
@@ -577,6 +603,10 @@ func (sf *file) prefetchEntireFileSequential(entireCacheID string) error {
 		chunkOffset, chunkSize, chunkDigestStr, ok := sf.fr.ChunkEntryForOffset(offset)
 		if !ok {
 			break
+		}
+		if err := checkChunk(offset, chunkOffset, chunkSize); err != nil {
+			w.Abort()
+			return err
 		}
 
 		id := genID(sf.id, chunkOffset, chunkSize)
@@ -834,6 +864,17 @@ func (gr *reader) verifyChunk(id uint32, p []byte, chunkDigestStr string) error 
 		return fmt.Errorf("invalid chunk: not verified")
 	}
 
+	return nil
+}
+
+// checkChunk validates a chunk reported by the (untrusted) layer metadata for the file offset off:
+// it must be non-empty, must not wrap around and must contain off, so that the loops over the chunks
+// of a file make progress and the buffers derived from it have a sane, non-negative size.
+func checkChunk(off, chunkOffset, chunkSize int64) error {
+	if chunkOffset < 0 || chunkSize <= 0 || chunkOffset+chunkSize < chunkOffset ||
+		off < chunkOffset || off >= chunkOffset+chunkSize {
+		return fmt.Errorf("invalid chunk (offset:%d,size:%d) for file offset %d", chunkOffset, chunkSize, off)
+	}
 	return nil
 }
 
